@@ -67,9 +67,10 @@ class VerifTask(Task):
             if prior < n:
                 raise TransientError("scripted transient (no ctx)")
             return TaskResult.success(outputs=out)
-        if k == "jump":
+        if k in ("jump", "jump2"):     # jump2: a different target per iteration ("t,r")
             if jumps < n:
-                return TaskResult.jump_to(script["target"])
+                targets = script["target"].split(",")
+                return TaskResult.jump_to(targets[min(jumps, len(targets) - 1)])
             return TaskResult.success(outputs=out)
         if k == "suspend":
             if sig:
